@@ -698,6 +698,8 @@ type wgenOpts struct {
 	constInit  bool // private globals initialised by a named module constant or a negated literal (C04/C05 findings)
 	noValIdx   bool // no dynamic index into a by-value vector (let / parameter) (C04 finding: MSL RZSW ternary without parentheses)
 	fwdNest    bool // a continue inside a regular switch nested in a single-clause switch inside a loop (continue forwarding)
+	noPreLet   bool // never test `break if` on a let bound before the counter's increment
+	preLetBoost bool // make that form the usual one (knob programs)
 	ptrLet     bool // `let p = &place;` bindings, read and written through `*p`
 	contCall   bool // a helper that is the only user of a private global, called only from a loop's continuing block / for-update
 }
@@ -1790,6 +1792,9 @@ func (g *wgen) loopStmt(depth int) *wstmt {
 	bound := uint32(1 + g.c.rng.Intn(4))
 	ctr := g.fresh("ii")
 	kind := g.c.rng.Intn(3)
+	if g.o.preLetBoost && g.c.chance(0.7) {
+		kind = 2
+	}
 	if g.inCont {
 		kind = 0
 	}
@@ -1858,12 +1863,26 @@ func (g *wgen) loopStmt(depth int) *wstmt {
 		g.inSwitch = saved
 		g.inLoop--
 		g.pop()
+		// sometimes the exit test looks at the counter's value from *before* the increment, bound by a `let` in the
+		// continuing block: `let llK = ii; ii++; break if llK + 1u >= N;` — same trip count, but the condition must be
+		// evaluated from the let, not from the variable as it is when the test is written
+		var pre *wexpr
+		if !g.o.noPreLet && (g.c.chance(0.3) || g.o.preLetBoost) {
+			pn := g.fresh("ll")
+			cont = append(cont, &wstmt{k: "let", name: pn, ty: tU32, e: &wexpr{k: "var", ty: tU32, name: ctr}})
+			pre = &wexpr{k: "bin", ty: tU32, op: "+", args: []*wexpr{{k: "var", ty: tU32, name: pn}, {k: "lit", ty: tU32, bits: 1, konst: true, small: true}}}
+			g.f("break-if-on-let")
+		}
 		cont = append(cont, &wstmt{k: "incr", lhs: ctrE})
 		decl := &wstmt{k: "var", name: ctr, ty: tU32, e: &wexpr{k: "lit", ty: tU32, bits: 0, konst: true, small: true}}
 		var brk *wexpr
-		if g.c.chance(0.6) {
+		if pre != nil || g.c.chance(0.6) {
 			g.f("break-if")
-			brk = &wexpr{k: "bin", ty: tBool, op: ">=", args: []*wexpr{ctrE, limit}}
+			lhsE := ctrE
+			if pre != nil {
+				lhsE = pre
+			}
+			brk = &wexpr{k: "bin", ty: tBool, op: ">=", args: []*wexpr{lhsE, limit}}
 		} else {
 			// explicit guard at the top of the body
 			guard := &wstmt{k: "if", e: &wexpr{k: "bin", ty: tBool, op: ">=", args: []*wexpr{ctrE, limit}}, body: []*wstmt{{k: "break"}}}
